@@ -1,4 +1,5 @@
 import TFV.Properties.Metrics
+import TFV.Properties.Src.MetricCounts
 #print axioms TFV.Metrics.C19_counts
 #print axioms TFV.Metrics.C19_recall
 #print axioms TFV.Metrics.C19_precision
@@ -9,3 +10,7 @@ import TFV.Properties.Metrics
 #print axioms TFV.Metrics.C19_r2
 #print axioms TFV.Metrics.C19_mse
 #print axioms TFV.Metrics.C19_batch
+#print axioms TFV.SrcTie.C19_src_recall_counts
+#print axioms TFV.SrcTie.C19_src_precision_counts
+#print axioms TFV.SrcTie.C19_src_f1_counts
+#print axioms TFV.SrcTie.C19_src_precision_inadmissible
